@@ -14,7 +14,8 @@ for k in sorted(desc):
     by = []
     for chk, r in c['checks'].items():
         if r['detected']:
-            sig = r['violations'][0] if r['violations'] else '(violation)'
+            vs = [x for x in r['violations'] if '|aged|' not in x] or r['violations']
+            sig = vs[0] if vs else '(violation)'
             if len(sig) > 90: sig = sig[:87] + '…'
             by.append(f"{chk} `{sig}`")
         else:
